@@ -51,10 +51,13 @@ pub fn programs(tier: Tier) -> ProgramSet {
             out.push(Program { idx: 0, label: format!("{} [{}]", e.label, if custom { "custom error" } else { "standard error" }), k: e.k, spec, aux: json!(null), source });
         }
         // an error type that mentions the enum's own type parameter
-        if e.spec.generics.iter().any(|g| matches!(g, Generic::Type { .. })) {
+        if let Some(tp) = e.spec.generics.iter().find_map(|g| match g {
+            Generic::Type { name, .. } => Some(name.clone()),
+            _ => None,
+        }) {
             let mut spec = e.spec.clone();
             spec.parse_err = false;
-            spec.extra_attrs.push("#[strum(parse_err_ty = vf_core::MyErrG<T>, parse_err_fn = vf_core::my_err_g)]".into());
+            spec.extra_attrs.push(format!("#[strum(parse_err_ty = vf_core::MyErrG<{}>, parse_err_fn = vf_core::my_err_g)]", tp));
             let source = render(&spec);
             out.push(Program { idx: 0, label: format!("{} [custom error type mentioning T]", e.label), k: e.k + 1, spec, aux: json!({"generic_err": true}), source });
         }
@@ -78,7 +81,10 @@ pub fn programs(tier: Tier) -> ProgramSet {
 pub fn render(spec: &EnumSpec) -> String {
     let derives = ["Debug", "PartialEq", "strum::EnumString"];
     let generic_err = spec.extra_attrs.iter().any(|a| a.contains("MyErrG"));
-    let err_ty = if generic_err { "vf_core::MyErrG<u8>" } else if spec.parse_err { "vf_core::MyErr" } else { "strum::ParseError" };
+    // the instantiation of the first type parameter (u8, or vf_core::Nd for a parameter named P, ..)
+    let first_ty_arg = spec.generics_inst().trim_start_matches('<').trim_end_matches('>').split(", ").find(|a| !a.starts_with('\'')).unwrap_or("u8").to_string();
+    let err_g = format!("vf_core::MyErrG<{}>", first_ty_arg);
+    let err_ty = if generic_err { err_g.as_str() } else if spec.parse_err { "vf_core::MyErr" } else { "strum::ParseError" };
     let call = format!(
         "let _t1: fn(&str) -> Result<EC, {e}> = <EC as core::str::FromStr>::from_str;\n    let _t2: Option<<EC as core::str::FromStr>::Err> = None::<{e}>;\n    let _t3: Option<<EC as core::convert::TryFrom<&str>>::Error> = None::<{e}>;\n    vf_core::props::c18::explore(ctx, &mut from_str, &mut try_from);",
         e = err_ty
